@@ -504,12 +504,35 @@ func (c *Ctx) ruleSitesCTOR() {
 					}
 				}
 				// ... or pointer operands are turned away before (a shared helper may strip)
-				skipPtr := si.take("not-pointer", func(l Lit) bool {
+				isPtrAssert := func(l Lit) bool {
 					x, t, _ := typeAssertOK(l)
-					if x == nil || l.Pos || typeStr(t) != "*go/types.Pointer" {
+					if x == nil || typeStr(t) != "*go/types.Pointer" {
 						return false
 					}
 					return P.RootsAllDeep(x, func(r ssa.Value) bool { return P.CallTo(r, "go/types.Unalias") != nil })
+				}
+				skipPtr := si.take("not-pointer", func(l Lit) bool {
+					if l.Pos {
+						return false
+					}
+					if isPtrAssert(l) {
+						return true
+					}
+					// !(t != nil && isPointer(t)): the answer of a small predicate helper
+					if l.Kind == "and" {
+						saw := false
+						for _, sl := range l.Subs {
+							switch {
+							case sl.Pos && isPtrAssert(sl):
+								saw = true
+							case nilCheck(sl):
+							default:
+								return false
+							}
+						}
+						return saw
+					}
+					return false
 				})
 				if len(skipPtr) > 0 {
 					stripped = false
